@@ -693,6 +693,8 @@ class Interp:
                     if not self.branch(ent[0]):
                         raise PanicEx('map index: key not found: %r' % (idx,), e)
                 return Ref(base.addr, base.path + (('k', key),))
+            if isinstance(cont, Opaque) and cont.tag == 'Buffer' and isinstance(idx, Opaque) and idx.tag == 'Range':
+                return Ref(self.alloc(Opaque('Slice', chunk=cont.get('chunk'), upto=idx.get('end'))), ())
             if isinstance(cont, RVec):
                 if isinstance(idx, Opaque) and idx.tag == 'Range':
                     tmp = self.alloc(self.lib.slice_range(cont, idx, e))
@@ -965,26 +967,25 @@ class Interp:
             n += 1
             if n > 200:
                 raise Unsupported('loop unwinding bound (200) exceeded', e)
-            if self.skipping is not None and self._contains_skip_target(e['body']):
-                pass  # resuming inside the body: the condition was evaluated before the suspension
-            else:
-                self.frame.scopes.append({})
-                try:
-                    c = self.eval_cond(e['cond'])
-                finally:
-                    self.frame.scopes.pop()
-                if not c:
-                    return UNIT
+            self.frame.scopes.append({})     # bindings of a `while let` stay visible in the body
             try:
-                self.exec_block(e['body'])
-            except BreakEx as b:
-                if b.label is None or b.label == e['label']:
-                    return UNIT
-                raise
-            except ContinueEx as c:
-                if c.label is None or c.label == e['label']:
-                    continue
-                raise
+                if self.skipping is not None and self._contains_skip_target(e['body']):
+                    pass  # resuming inside the body: the condition was evaluated before the suspension
+                else:
+                    if not self.eval_cond(e['cond']):
+                        return UNIT
+                try:
+                    self.exec_block(e['body'])
+                except BreakEx as b:
+                    if b.label is None or b.label == e['label']:
+                        return UNIT
+                    raise
+                except ContinueEx as c:
+                    if c.label is None or c.label == e['label']:
+                        continue
+                    raise
+            finally:
+                self.frame.scopes.pop()
 
     def ev_For(self, e):
         it = self.eval(e['expr'])
@@ -1069,6 +1070,9 @@ class Interp:
             if kind == 'ready':
                 return f.get('value')
             return self.lib.await_prim(f, node, f0)
+        # library models may return the completed value of an async call directly
+        if isinstance(f, (bool, int, str, REnum, RStruct, RTuple, RVec, RSet, RMap)) or f is UNIT or is_sym(f) or (isinstance(f, Opaque) and f.tag != 'Future'):
+            return f
         raise Unsupported('await on %r' % (f,), node)
 
     def ev_Call(self, e):
